@@ -125,6 +125,8 @@ def run_scenario(sc):
             rec["coefs"] = [float(c) for c in simu._Solver_Get_K_C_M_coefs_for_time_scheme()]
             rec["rhs"] = fl(dense(simu._Solver_Apply_Neumann(pt)))
         simu.Solve()
+        if sc.get("restart") is not None:
+            simu.Save_Iter()
         u1, v1, a1 = simu._Get_u_n(pt), simu._Get_v_n(pt), simu._Get_a_n(pt)
         rec["new"] = {"u": fl(u1), "v": fl(v1), "a": fl(a1)}
         if sc.get("energy"):
@@ -150,6 +152,18 @@ def run_scenario(sc):
             rec["up"] = [None if t is None else fl(t) for t in up]
             rec["x"] = fl(x)
         out.append(rec)
+    rs = sc.get("restart")
+    if rs is not None:
+        # go back to saved iteration k, read the state back, continue with step k+1's settings
+        k = int(rs["k"])
+        st = sc["steps"][k + 1]
+        simu.Set_Iter(k)
+        back = {"u": fl(simu._Get_u_n(pt)), "v": fl(simu._Get_v_n(pt)), "a": fl(simu._Get_a_n(pt))}
+        set_algo(simu, st)
+        apply_bc(simu, sc, st.get("neumann_scale", 1.0))
+        simu.Solve()
+        cont = {"u": fl(simu._Get_u_n(pt)), "v": fl(simu._Get_v_n(pt)), "a": fl(simu._Get_a_n(pt))}
+        out[k + 1]["restart"] = {"k": k, "restored": back, "cont": cont}
     return out
 
 
